@@ -141,11 +141,11 @@ Inductive ItemStrL : itemA -> list byte -> Prop :=
     ~ (ini = None /\ anys = [] /\ fin = None) ->
     ValEnc (oget ini) si -> Forall2 ValEnc anys sa -> ValEnc (oget fin) sf ->
     ItemStrL (ISub a ini anys fin) (a ++ "="%byte :: si ++ starred (sa ++ [sf]))
-| L_ExtA a dn mr v s : AttrDescL a -> (match mr with Some m => OidL m | None => True end) -> ValEnc v s ->
+| L_ExtA a dn d mr v s : AttrDescL a -> DnStr dn d -> (match mr with Some m => OidL m | None => True end) -> ValEnc v s ->
     ItemStrL (IExt mr (Some a) dn v)
-             (a ++ dnstr dn ++ (match mr with Some m => ":"%byte :: m | None => [] end) ++ ":"%byte :: "="%byte :: s)
-| L_ExtM m dn v s : OidL m -> ValEnc v s ->
-    ItemStrL (IExt (Some m) None dn v) (dnstr dn ++ ":"%byte :: m ++ ":"%byte :: "="%byte :: s).
+             (a ++ d ++ (match mr with Some m => ":"%byte :: m | None => [] end) ++ ":"%byte :: "="%byte :: s)
+| L_ExtM m dn d v s : OidL m -> DnStr dn d -> ValEnc v s ->
+    ItemStrL (IExt (Some m) None dn v) (d ++ ":"%byte :: m ++ ":"%byte :: "="%byte :: s).
 
 Lemma tag_inv t : forall i r, tag t i = Some r -> i = t ++ r.
 Proof. induction t as [|a t IH]; intros i r H; cbn in H; [now injection H as ->|].
@@ -224,9 +224,12 @@ Proof.
       exists (IApprox a v), (a ++ "~"%byte :: "="%byte :: s). repeat split; [rewrite <- app_assoc; reflexivity|now constructor].
 Qed.
 
-Lemma opt_dn_inv i b r : opt_dn i = (b, r) -> i = (if b then [":"; "d"; "n"]%byte else []) ++ r.
-Proof. unfold opt_dn. destruct (tag [":"; "d"; "n"]%byte i) as [r'|] eqn:E; [|intros [= <- <-]; reflexivity].
-  destruct r' as [|c r'']; [intros [= <- <-]; reflexivity|]. destruct (beq c ":"%byte); intros [= <- <-]; [now apply tag_inv in E|reflexivity]. Qed.
+Lemma opt_dn_inv i b r : opt_dn i = (b, r) -> exists d, DnStr b d /\ i = d ++ r.
+Proof. unfold opt_dn. destruct i as [|c0 [|c1 [|c2 [|c r']]]]; try (intros [= <- <-]; exists []; now split).
+  destruct (beq c0 ":"%byte) eqn:E0; cbn [andb]; [|intros [= <- <-]; exists []; now split].
+  destruct (is_dn c1 c2) eqn:Ed; cbn [andb]; [|intros [= <- <-]; exists []; now split].
+  destruct (beq c ":"%byte); intros [= <- <-]; [|exists []; now split].
+  apply Byte.byte_dec_bl in E0. subst c0. exists [":"%byte; c1; c2]. split; [exists c1, c2; now split|reflexivity]. Qed.
 Lemma opt_tag_inv t i b r : opt_tag t i = (b, r) -> i = (if b then t else []) ++ r.
 Proof. unfold opt_tag. destruct (tag t i) as [r'|] eqn:E; intros [= <- <-]; [now apply tag_inv in E|reflexivity]. Qed.
 Lemma opt_mrule_inv i mr r : opt_mrule i = (mr, r) ->
@@ -240,20 +243,20 @@ Proof.
   unfold attr_dn_mrule. destruct (attributedescription i) as [[a r0]|] eqn:Ea; [|discriminate].
   destruct (opt_dn r0) as [dn r1] eqn:Ed. destruct (opt_mrule r1) as [mr r2] eqn:Em.
   destruct (tag [":"; "="]%byte r2) as [r3|] eqn:Et; [|discriminate]. destruct (unescaped r3) as [[v r4]|] eqn:Eu; [|discriminate]. intros [= <- <-].
-  destruct (attributedescription_inv _ _ _ Ea) as [-> Ha]. apply opt_dn_inv in Ed. destruct (opt_mrule_inv _ _ _ Em) as [E2 Hm].
+  destruct (attributedescription_inv _ _ _ Ea) as [-> Ha]. apply opt_dn_inv in Ed as (d & Hd & Ed). destruct (opt_mrule_inv _ _ _ Em) as [E2 Hm].
   apply tag_inv in Et. destruct (unescaped_inv _ _ _ Eu) as (s & -> & Hv). subst r0 r1 r2.
-  exists (IExt mr (Some a) dn v), (a ++ dnstr dn ++ (match mr with Some m => ":"%byte :: m | None => [] end) ++ ":"%byte :: "="%byte :: s).
-  repeat split; [|now constructor]. unfold dnstr. destruct dn; rewrite <- !app_assoc; cbn; now rewrite <- ?app_assoc.
+  exists (IExt mr (Some a) dn v), (a ++ d ++ (match mr with Some m => ":"%byte :: m | None => [] end) ++ ":"%byte :: "="%byte :: s).
+  repeat split; [|now constructor]. rewrite <- !app_assoc; cbn; now rewrite <- ?app_assoc.
 Qed.
 Theorem dn_mrule_inv i t r : dn_mrule i = Some (t, r) -> exists it s, i = s ++ r /\ ItemStrL it s /\ t = ber_item it.
 Proof.
   unfold dn_mrule. destruct (opt_dn i) as [dn r1] eqn:Ed.
   destruct (tag [":"%byte] r1) as [r1'|] eqn:Ec; [|discriminate]. destruct (attributetype r1') as [[m r2]|] eqn:Em; [|discriminate].
   destruct (tag [":"; "="]%byte r2) as [r3|] eqn:Et; [|discriminate]. destruct (unescaped r3) as [[v r4]|] eqn:Eu; [|discriminate]. intros [= <- <-].
-  apply opt_dn_inv in Ed. apply tag_inv in Ec. destruct (attributetype_inv _ _ _ Em) as [-> Hm]. apply tag_inv in Et.
+  apply opt_dn_inv in Ed as (d & Hd & Ed). apply tag_inv in Ec. destruct (attributetype_inv _ _ _ Em) as [-> Hm]. apply tag_inv in Et.
   destruct (unescaped_inv _ _ _ Eu) as (s & -> & Hv). subst i r1 r2.
-  exists (IExt (Some m) None dn v), (dnstr dn ++ ":"%byte :: m ++ ":"%byte :: "="%byte :: s).
-  repeat split; [|now constructor]. unfold dnstr. destruct dn; cbn; rewrite <- ?app_assoc; cbn; now rewrite <- ?app_assoc.
+  exists (IExt (Some m) None dn v), (d ++ ":"%byte :: m ++ ":"%byte :: "="%byte :: s).
+  repeat split; [|now constructor]. cbn; rewrite <- ?app_assoc; cbn; now rewrite <- ?app_assoc.
 Qed.
 
 Theorem item_inv i t r : item i = Some (t, r) -> exists it s, i = s ++ r /\ ItemStrL it s /\ t = ber_item it.
